@@ -554,7 +554,8 @@ func (e *c01Env) c08PartFilterProcess() c01Part {
 			if fp != nil {
 				fp.Close()
 			}
-			r.Inconcl = "filter-process handshake did not complete"; _ = err
+			r.Inconcl = "filter-process handshake did not complete"
+			_ = err
 			return r
 		}
 		status, out, rerr := fp.Request("clean", "f.bin", in.Data, pk.sizes)
